@@ -16,7 +16,18 @@ pub struct UnsafeJob {
     action: *mut dyn ScheduledJob,
 
     /// Optional condition variable signalled once the job has finished running 
-    on_finish: Option<(Arc<Condvar>, Arc<Mutex<bool>>)>,
+    on_finish: Option<(Arc<Condvar>, Arc<Mutex<BackgroundWait>>)>,
+}
+
+///
+/// What a thread blocked in a background sync is waiting for (both flags are protected by the mutex it waits with)
+///
+pub (super) struct BackgroundWait {
+    /// Set once the job has been run and released
+    pub (super) finished: bool,
+
+    /// Set whenever the queue has been rescheduled since the waiting thread last looked at it (so the notification is not lost if it arrives before the wait)
+    pub (super) rescheduled: bool
 }
 
 impl UnsafeJob {
@@ -34,7 +45,7 @@ impl UnsafeJob {
     ///
     /// Creates an unsafe job that notifies a condition variable and sets a boolean to true when it's finished. The referenced object should last as long as the job does
     ///
-    pub unsafe fn new_with_notification<'a>(action: &'a mut dyn ScheduledJob, on_finish: Arc<Condvar>, is_finished: Arc<Mutex<bool>>) -> UnsafeJob {
+    pub unsafe fn new_with_notification<'a>(action: &'a mut dyn ScheduledJob, on_finish: Arc<Condvar>, is_finished: Arc<Mutex<BackgroundWait>>) -> UnsafeJob {
         let action_ptr: *mut dyn ScheduledJob = action;
 
         // Transmute to remove the lifetime parameter :-/
@@ -48,7 +59,7 @@ impl Drop for UnsafeJob {
     #[inline]
     fn drop(&mut self) {
         if let Some((on_finish, is_finished)) = self.on_finish.take() {
-            (*is_finished.lock().unwrap()) = true;
+            is_finished.lock().unwrap().finished = true;
             on_finish.notify_all();
         }
     }
